@@ -68,6 +68,12 @@ func (m DistributedExecutionOptimizer) Optimize(plan parser.Expr) parser.Expr {
 			return true
 		}
 
+		// Scalars such as time() or pi() are not vectors of series: they cannot be
+		// replaced by a (matrix-typed) coalesce of remote results.
+		if (*current).Type() == parser.ValueTypeScalar {
+			return true
+		}
+
 		// If the current node is an aggregation, distribute the operation and
 		// stop the traversal.
 		if aggr, ok := (*current).(*parser.AggregateExpr); ok {
